@@ -547,6 +547,14 @@ class Interp:
         raise Undecided('identity of immutable values')
 
     def contains(self, c: Any, x: Any) -> bool:
+        if isinstance(c, Obj):
+            m = self.prog.lookup_method(c.cls, '__contains__')
+            if m is not None:
+                return self.truth(self.call_function(m, [x], {}, self_val=c))
+            m = self.prog.lookup_method(c.cls, '__iter__')
+            if m is not None:
+                return any(self.equal(x, y) for y in self.iterate(self.call_function(m, [], {}, self_val=c)))
+            raise Raised('TypeError', f'argument of type {c.cls.name} is not iterable')
         if isinstance(c, (set, frozenset, dict)):
             self._hashable(x)
             return any(self.equal(x, y) for y in c)
